@@ -26,5 +26,36 @@ CHECKS = {
     },
 }
 
+CHECKS["C01"] = {
+    "technique": "bounded exhaustive enumeration of typed programs x both optimizer profiles, all argument values, against a CPython-executed reference semantics",
+    "text": "Every program of five finite grammar families is translated by the real front end; its return expressions are evaluated on ALL "
+            "argument values and compared with CPython running the same source on exact integers with width/overflow tracking (exact / low "
+            "determined bits / undetermined rule of the property); truth_table() compared on all rows for small n; rejected programs counted.",
+    "note": "Trusted: CPython, the RefInt width rules (documented in DESIGN §3.5), boolev. Widths <= 4 bits (8 for single-argument types), depth <= 2.",
+    "ref": "§5 C01",
+}
+CHECKS["C04"] = {
+    "technique": "bounded exhaustive enumeration of expression lists x 17 optimizer transformations, bit-parallel equivalence on all assignments",
+    "text": "All expressions up to depth 2 over And/Or/Not/Xor/ITE/Implies, n-ary sign patterns, list templates with shared intermediates and the "
+            "front end's own raw lists are pushed through both profiles, each single step and every pipeline prefix; every return symbol must keep "
+            "its truth table on all assignments and no undefined symbol may be read.",
+    "note": "Trusted: boolev. Bound: <= 4-5 variables, depth <= 2.",
+    "ref": "§5 C04",
+}
+CHECKS["C05"] = {
+    "technique": "bounded exhaustive enumeration of signatures/programs x all argument values through encode_input -> real circuit -> decode_output",
+    "text": "Every program of the type/builtin family (all signature shapes) plus two-argument integer and statement programs is compiled; for "
+            "every argument value the encoded string, the simulated circuit reading and the decoded value are checked against reference codecs.",
+    "note": "Trusted: reference codec (pyref.decode_value), bitsim, the documented string convention. <= 10 input bits.",
+    "ref": "§5 C05",
+}
+CHECKS["C09"] = {
+    "technique": "complete enumeration of all bit patterns of every shipped type (and nested types up to 10 bits)",
+    "text": "Exhaustive, not bounded, for the scalar types: every pattern of every Qint/Qfixed/Qchar type through from_bool/to_bool/from_bin/to_bin/"
+            "const/to_amplitudes against an independent reference codec; nested Tuple/Qlist/Qmatrix types through interpret_as_qtype.",
+    "note": "Trusted: the reference codec. Qint16 only in the thorough tier.",
+    "ref": "§5 C09",
+}
+
 ALL = ["C%02d" % i for i in range(1, 19)]
 NOT_APPLICABLE = {p: _PENDING for p in ALL if p not in CHECKS}
